@@ -70,8 +70,16 @@ func c20Val(ty string) any {
 	case "c5":
 		return map[string]any{"k": "v"}
 	}
+	if f, ok := c20ExtVals[ty]; ok {
+		return f()
+	}
 	return nil
 }
+
+// extension points filled by a property that widens the menu (C07: defined types over unnamed
+// members of the universe, harness/props/c07_types.go); empty for C20
+var c20ExtVals = map[string]func() any{}
+var c20ExtConcrete []string
 
 // c20Inhabits: a value of concrete type dyn can be stored in a variable of type ty
 func c20Inhabits(dyn, ty string) bool {
@@ -359,6 +367,11 @@ func c20DynName(v any) string {
 			return n
 		}
 	}
+	for _, n := range c20ExtConcrete {
+		if c20RTypes[n] == t {
+			return n
+		}
+	}
 	return t.String()
 }
 
@@ -374,6 +387,11 @@ type c20Obs struct {
 // c20FirstInhabitant: a concrete menu type whose values can be passed where ty is expected
 func c20FirstInhabitant(ty string) string {
 	for _, c := range c20Concrete {
+		if c20Inhabits(c, ty) {
+			return c
+		}
+	}
+	for _, c := range c20ExtConcrete {
 		if c20Inhabits(c, ty) {
 			return c
 		}
